@@ -1971,7 +1971,8 @@ class StridedInterval:
             return x
 
         if isinstance(shift_amount, numbers.Number):
-            return (shift_amount, shift_amount)
+            amount = round(self.bits, shift_amount)
+            return (amount, amount)
 
         assert type(shift_amount) is StridedInterval
 
